@@ -469,9 +469,9 @@ def canon(p, extra=()):
     """Canonical form of the state at an 'updated' phase: exactly the fields the next steps read.
 
     Absolute time only enters the future through the fresh absence answers and PERT values, which
-    are stored here relative to t; worker/facility .state is overwritten from the absence answer
-    before it is read again and is therefore dropped; the READY count so far is kept (FIFO reads it
-    from the log); lst/lft are kept (the backward pass compares with the stored values).
+    are stored here relative to t; the READY count so far is kept (FIFO reads it from the log);
+    lst/lft and the resource states are kept although the unchanged library overwrites them before
+    reading them again (a changed library might not).
     """
     t0 = p.time
     ts = []
@@ -490,16 +490,18 @@ def canon(p, extra=()):
                 sum(1 for s in t.state_record_list if s == BaseTaskState.READY),
             )
         )
+    # resource .state is normally overwritten from the absence answer before it is read again, but it is kept in the
+    # canonical state all the same: a changed library might read it, and then merging on less would hide that
     ws = []
     for team in p.organization.team_list:
         for w in team.worker_list:
-            ws.append((w.ID, tuple(t.ID for t in w.assigned_task_list)))
+            ws.append((w.ID, int(w.state), tuple(t.ID for t in w.assigned_task_list)))
     fs = []
     wps = []
     for wp in p.organization.workplace_list:
         wps.append((wp.ID, tuple(c.ID for c in wp.placed_component_list)))
         for f in wp.facility_list:
-            fs.append((f.ID, tuple(t.ID for t in f.assigned_task_list)))
+            fs.append((f.ID, int(f.state), tuple(t.ID for t in f.assigned_task_list)))
     cs = []
     for c in p.product.component_list:
         cs.append((c.ID, int(c.state), None if c.placed_workplace is None else c.placed_workplace.ID))
